@@ -21,7 +21,7 @@ SCOPE = {"quick": "54 operations (the GroupBy constructor, reductions, transform
                   "the accessors groups/key_count/ikey_count/group_ikey/result_index, emas.ema, emas.ema_grouped, numba.group_sum/group_max/cumsum/rolling_sum/rolling_shift), 3 and 4 rows: "
                   "(a) 21 key containers {ndarray int / float-with-null / str / bool / 2-D, pandas Series / Series on a named index / Index / RangeIndex / zero-copy Series view / Categorical / arrow-backed Series, polars Series, pyarrow Array / ChunkedArray, "
                   "list / dict / pandas DataFrame / polars DataFrame of two keys, dict of one Index / RangeIndex} x 18 representative operations (one per family: after GroupBy(keys) an operation only sees the integer codes) x {ndarray values without mask, pandas values with ndarray mask}; "
-                  "(b) every operation x 14 value containers {ndarray float / int / datetime / 2-D, pandas Series / zero-copy view / arrow-backed, polars Series, pyarrow Array / ChunkedArray, list / dict / pandas DataFrame / polars DataFrame of two} x masks {none, pandas} on ndarray keys, "
+                  "(b) every operation x 14 value containers {ndarray float / int / datetime / 2-D, pandas Series / zero-copy view / arrow-backed, polars Series, pyarrow Array / ChunkedArray, list / dict / pandas DataFrame / polars DataFrame of two} x masks {none, pandas} on ndarray keys, every operation x positional masks with positions counted from the end {int64, int32, pandas Index} on ndarray / categorical keys, "
                   "and x {ndarray, pandas Series, zero-copy view, DataFrame} with a pandas mask on keys with a named custom index; (c) Categorical / ChunkedArray / float-with-null keys x representative operations x masks {none, ndarray} on 3 rows",
          "thorough": "as quick with every operation (not only the representatives) for every key container, every value container on the indexed keys, and the full product key container x value container for 10 reduction / cumulative / rolling operations"}
 RULE = "a case = (operation, key container, value container, mask container, rows); distinct = distinct canonical JSON; non-trivial = the operation returned (so that the aliasing / edit / repeat clauses were evaluated) - every case is"
@@ -277,6 +277,10 @@ def make_values(kind, n):
 
 def make_mask(kind, n, index=None):
     if kind == "none": return None
+    if kind.startswith("pos"):
+        # integer positions, some counted from the end (array-indexing semantics), in a writeable buffer of the caller
+        pos = [0, -1, 1 - n, n - 2][: max(2, n - 1)]
+        return pd.Index(np.array(pos, dtype=np.int64)) if kind == "pos_index" else np.array(pos, dtype=np.int32 if kind == "pos_i32" else np.int64)
     m = np.array([(i % 3) != 2 for i in range(n)], dtype=bool)
     return m if kind == "np" else pd.Series(m, index=index)
 
@@ -389,6 +393,7 @@ def cases(tier, seed):
                gen(("np_int",), VAL_KINDS, ("none", "pd"), (4,)),                                                # every operation x every value container
                gen(("pd_series_named_idx",), ("np_float", "pd_series", "pd_view", "pd_df2") + (VAL_KINDS if big else ()), ("pd",), (4,)),   # ... on keys with a named custom index
                gen(("np_int",), ("np_float", "pl_series"), ("np",), (3,)),
+               gen(("np_int", "pd_cat"), ("np_float", "pd_series"), ("pos", "pos_i32", "pos_index"), (4,)),       # positional row filters (operations that do not take positions raise: framed too)
                gen(("pd_cat", "pa_chunked", "np_float_null"), ("np_float",), ("none", "np"), (3,), None if big else REP_OPS)]
     if big: streams.append(gen(KEY_KINDS, VAL_KINDS, ("none", "np"), (4,), HEAVY))
     seen = set()
